@@ -26,6 +26,10 @@ TECHNIQUE = 'static analysis: free/bound axis-label analysis of value-numbered t
 ORDER_FNS = {'cumsum', 'sort', 'rev', 'slice', 'argmin', 'argmax', 'argsort', 'at', 'searchsorted', 'interp', 'lininterp'}
 
 
+# reductions that do not depend on the order of the elements they reduce
+SYMMETRIC = {'sum', 'any', 'all', 'max', 'min', 'nanmax', 'nanmin', 'len', 'LRc', 'OS', 'CHI'}
+
+
 def binders(p, label):
     """names of atoms that bind ``label`` anywhere in p"""
     out = []
@@ -55,8 +59,8 @@ def check_equivariance(ctx):
                 continue
             free = alg.poly_labels(v.poly)
             allowed = {M} | ({W} if nm == 'model_fluxes' else set())
-            bw = [b for b in binders(v.poly, W) if b not in ('LRc', 'OS', 'CHI', 'sum', 'any')]
-            bm = binders(v.poly, M)
+            bw = [b for b in binders(v.poly, W) if b not in SYMMETRIC]
+            bm = [b for b in binders(v.poly, M) if b not in ('any', 'all')]          # (a test "is there any model that ..." guarding a masked store does not make one model's result depend on another's)
             probs = []
             if not free <= allowed:
                 probs.append('depends on position along axes %s' % sorted(free - allowed))
@@ -89,7 +93,7 @@ def check_equivariance(ctx):
         for v in vals:
             if W in alg.poly_labels(v.poly):
                 probs.append('result depends on filter position')
-            b = [x for x in binders(v.poly, W) if x != 'sum']
+            b = [x for x in binders(v.poly, W) if x not in SYMMETRIC]
             if b:
                 probs.append('order-dependent operations on the filter axis: %s' % b)
         pos = [(lab, i) for lab, i, path, ln in I.positional if lab in (W, M)]
